@@ -61,6 +61,8 @@ def compare(ctx: Ctx, cases: list[dict], stream: str):
 
 
 def save_corpus(c: dict, stream: str):
+    if os.environ.get('VERIF_REPO'):
+        return      # a scratch tree (mutation test): its failures do not belong into the committed corpus
     d = ROOT / 'corpus' / PROP
     try:
         d.mkdir(parents=True, exist_ok=True)
